@@ -446,12 +446,13 @@ def set_dvid(model: Model, name: str):
                 f"Could not use column {name} as DVID because it contains non-integral values"
             )
         df = df.assign(**{name: converted})
-        col = col.replace(datatype=ColumnInfo.convert_pd_dtype_to_datatype(converted.dtype))
+        col = col.replace(datatype=ColumnInfo.convert_pd_dtype_to_datatype(converted.dtype.name))
         new_dataset = True
     else:
         new_dataset = False
 
-    col = col.replace(categories=sorted(df[name].unique()))
+    # NOTE: Python scalars (and the dtype name above): numpy objects are not JSON serializable
+    col = col.replace(categories=sorted(df[name].unique().tolist()))
 
     di = di.set_column(col)
 
